@@ -24,4 +24,7 @@ def run(ctx):
     ctx.floor("R-INV", "C04 scope bodies", len(sc), 380)
     ctx.floor("R-INV", "C04 panic-capable sites", st["sites"], 270)
     ctx.floor("R-TERM", "C04 loops", tst["loops"], 40)
+    # preconditions of panicking callees that rest on a check in another function are stated as rules of their own
+    import prop_c15
+    prop_c15.put_precondition(ctx, F, R="R-GUARD")
     ctx.assumptions += ["usize is 64 bits (three tabled sites rely on it)", "load_filtered's user-supplied filter_func is total"]
